@@ -1,5 +1,21 @@
 package open_game_manager
 
+import "github.com/weedbox/syncsaga"
+
+// copyState returns a snapshot that shares nothing with the manager's state.
+func (m *openGameManager) copyState() OpenGameState {
+	state := OpenGameState{
+		Timeout:      m.state.Timeout,
+		GameCount:    m.state.GameCount,
+		Participants: make(map[string]*OpenGameParticipant, len(m.state.Participants)),
+	}
+	for id, participant := range m.state.Participants {
+		p := *participant
+		state.Participants[id] = &p
+	}
+	return state
+}
+
 func (m *openGameManager) readyGroupResetParticipants() {
 	m.rg.ResetParticipants()
 	m.state.Participants = map[string]*OpenGameParticipant{}
@@ -14,11 +30,21 @@ func (m *openGameManager) readyGroupAddParticipant(participant OpenGameParticipa
 	m.rg.Add(int64(participant.Index), isReady)
 }
 
-func (m *openGameManager) readyGroupOnCompleted() {
+func (m *openGameManager) readyGroupOnCompleted(rg *syncsaga.ReadyGroup) {
+	m.mu.Lock()
+	if rg != m.rg {
+		// completion of a group that a newer set-up has superseded
+		m.mu.Unlock()
+		return
+	}
+
 	for participantID := range m.state.Participants {
 		m.state.Participants[participantID].IsReady = true
 	}
-	m.onOpenGameReady(m.GetState())
+	state := m.copyState()
+	m.mu.Unlock()
+
+	m.onOpenGameReady(state)
 }
 
 func (m *openGameManager) readyGroupReady(participantID string) error {
